@@ -513,7 +513,9 @@ impl<'p, 'a> Evaluator<'a, 'p> {
                         if !cond_value {
                             if let Some((msg_expr, msg_env)) = msg_expr {
                                 self.state_stack.push(State::AssertMsg { assert_span });
+                                self.push_trace_item(TraceItem::Expr { span: assert_span });
                                 self.state_stack.push(State::CoerceToString);
+                                self.delay_trace_item();
                                 self.state_stack.push(State::Expr {
                                     expr: msg_expr,
                                     env: msg_env,
